@@ -425,6 +425,20 @@ def f8_obligations(out):
                 "time": round(time.time() - t0, 2), "replay": {"problem": prob}, "replay_confirmed": bool(prob) and not prob.startswith("markers")})
 
 
+def f9_obligations(out):
+    """F9: glyph bitmaps are folded at transpile time: the rows uploaded by the firmware equal what the host LCD.glyph() stores for the same
+    literal (rows with every bit of the 5-bit cell, out-of-range and negative values) - the glyph scripts of C17, judged here as folding"""
+    import sys as _sys
+    import contracts.c17 as c17
+    from contracts.c08 import real
+    real("Reduino.Displays")
+    HostLCD = _sys.modules["Reduino.Displays.LCD"].LCD
+    for o in c17.backlight_and_glyph_obligations(HostLCD):
+        if "glyph" in o["name"]:
+            o = dict(o, name=o["name"].replace("C17/", "C03/F9/", 1))
+            out.append(o)
+
+
 def f7_obligations(P, out):
     import multiprocessing as mp
     import re as _re
@@ -466,6 +480,7 @@ def extra_obligations(mods, tier, seed):
     f6_buzzer_obligations(out)
     f7_obligations(P, out)
     f8_obligations(out)
+    f9_obligations(out)
     return out
 
 
